@@ -14,9 +14,9 @@ private def fixedOnly : List Qubit → Option (List Nat)
   | .fixed k :: qs => (fixedOnly qs).map (k :: ·)
   | _ :: _ => none
 
-private def realNums : List (Param CFloat) → Option (List CFloat)
+private def realNums : List (Param C64) → Option (List C64)
   | [] => some []
-  | .num z :: ps => if z.2 == 0.0 then (realNums ps).map (z :: ·) else none
+  | .num z :: ps => if z.im == 0.0 then (realNums ps).map (z :: ·) else none
   | _ :: _ => none
 
 private def placementTags (qs : List Nat) (n : Nat) : List String :=
